@@ -50,7 +50,7 @@ def menus():
         ("message", "input"): [ABSENT, None, "0", 1.5, True, -1, 2 ** 32, 2 ** 64, 10 ** 30, 0, 1,
                                2 ** 32 - 1],
         ("message", "sighashComputationMode"): [ABSENT, None, 5, "", "LEGACY", "other", "segwit",
-                                                "legacy"],
+                                                "legacy", [], {}, ["legacy"], {"legacy": 1}, True, 1.5],
         ("message", "witnessScript"): [ABSENT] + HEX_BAD + ["aa"],
         ("message", "outpointValue"): [ABSENT, None, "1", 1.5, True, 0, -1, 2 ** 64, 1, 2 ** 64 - 1],
         ("message", "hash"): [ABSENT] + HEX_BAD + ["aa" * 31, "aa" * 33, "AA" * 32, "aa" * 32],
